@@ -274,4 +274,6 @@ def classify(case, out):
 def direct_oracle(case, out):
     if out.get('problems'):
         return '; '.join(out['problems'][:2])
+    if out.get('spec_leaks'):
+        return '%d container(s) of the result are the spec\'s own list / dict / set objects, not rebuilt ones' % out['spec_leaks']
     return None
